@@ -237,3 +237,122 @@ func policyFuncs(l *loaded, sb *strings.Builder) {
 	}
 	sb.WriteString("\n")
 }
+
+// ---- column tables of parser/metadata.go ----
+func typeExpr(e ast.Expr) (string, bool) {
+	switch x := e.(type) {
+	case *ast.SelectorExpr:
+		if id, ok := x.X.(*ast.Ident); ok && id.Name == "datatype" {
+			return "(CT " + "(" + bytesLit(strings.ToLower(x.Sel.Name)) + "%N : list N))", true
+		}
+	case *ast.CallExpr:
+		if sel, ok := x.Fun.(*ast.SelectorExpr); ok {
+			if id, ok := sel.X.(*ast.Ident); ok && id.Name == "datatype" {
+				var args []string
+				for _, a := range x.Args {
+					s, ok := typeExpr(a)
+					if !ok {
+						return "", false
+					}
+					args = append(args, s)
+				}
+				switch {
+				case sel.Sel.Name == "NewSet" && len(args) == 1:
+					return "(CSet " + args[0] + ")", true
+				case sel.Sel.Name == "NewList" && len(args) == 1:
+					return "(CList " + args[0] + ")", true
+				case sel.Sel.Name == "NewMap" && len(args) == 2:
+					return "(CMap " + args[0] + " " + args[1] + ")", true
+				}
+			}
+		}
+	}
+	return "", false
+}
+
+func columnTables(l *loaded, sb *strings.Builder) {
+	sb.WriteString("Inductive coltype := CT (name : list N) | CSet (e : coltype) | CList (e : coltype) | CMap (k v : coltype).\n\n")
+	p := l.pkgs["parser"]
+	tables := map[string]string{}
+	for _, f := range p.Syntax {
+		for _, d := range f.Decls {
+			gd, ok := d.(*ast.GenDecl)
+			if !ok || gd.Tok != token.VAR {
+				continue
+			}
+			for _, sp := range gd.Specs {
+				vs := sp.(*ast.ValueSpec)
+				for i, name := range vs.Names {
+					if i >= len(vs.Values) {
+						continue
+					}
+					cl, ok := vs.Values[i].(*ast.CompositeLit)
+					if !ok {
+						continue
+					}
+					if at, ok := cl.Type.(*ast.ArrayType); ok {
+						if se, ok := at.Elt.(*ast.StarExpr); !ok || fmt.Sprint(se.X) != "&{message ColumnMetadata}" {
+							continue
+						}
+						var rows []string
+						good := true
+						for _, el := range cl.Elts {
+							c, ok := el.(*ast.CompositeLit)
+							if !ok {
+								good = false
+								break
+							}
+							var cname, ctype string
+							for _, kv := range c.Elts {
+								k := kv.(*ast.KeyValueExpr)
+								switch fmt.Sprint(k.Key) {
+								case "Name":
+									if s, ok := constStr(p, k.Value); ok {
+										cname = s
+									}
+								case "Type":
+									if s, ok := typeExpr(k.Value); ok {
+										ctype = s
+									}
+								}
+							}
+							if cname == "" || ctype == "" {
+								good = false
+								break
+							}
+							rows = append(rows, "(("+bytesLit(cname)+"%N : list N), "+ctype+")")
+						}
+						coq := "cols_" + name.Name
+						if !good {
+							decline(coq, "column list is not a literal of {Name, Type} entries")
+							continue
+						}
+						tables[name.Name] = coq
+						fmt.Fprintf(sb, "Definition %s : list (list N * coltype) :=\n  [%s].\n\n", coq, strings.Join(rows, ";\n   "))
+					} else if _, ok := cl.Type.(*ast.MapType); ok && name.Name == "SystemColumnsByName" {
+						var rows []string
+						for _, el := range cl.Elts {
+							kv := el.(*ast.KeyValueExpr)
+							k, ok1 := constStr(p, kv.Key)
+							v, ok2 := kv.Value.(*ast.Ident)
+							if !ok1 || !ok2 || tables[v.Name] == "" {
+								decline("system_columns_by_name", "unexpected map entry")
+								rows = nil
+								break
+							}
+							rows = append(rows, "(("+bytesLit(k)+"%N : list N), "+tables[v.Name]+")")
+						}
+						if rows != nil {
+							fmt.Fprintf(sb, "Definition system_columns_by_name : list (list N * list (list N * coltype)) :=\n  [%s].\n\n", strings.Join(rows, ";\n   "))
+						}
+					}
+				}
+			}
+		}
+	}
+	for _, need := range []string{"SystemLocalColumns", "DseSystemLocalColumns", "SystemPeersColumns", "DseSystemPeersColumns"} {
+		if tables[need] == "" {
+			decline("cols_"+need, "not found")
+		}
+	}
+}
